@@ -279,8 +279,15 @@ func main() {
 			panic(err)
 		}
 		ps := &prover.ProvingSystem{TreeDepth: uint32(1 + g.Intn(31)), BatchSize: uint32(33 + g.Intn(1000)), ProvingKey: pk, VerifyingKey: vk, ConstraintSystem: ccs}
-		if g.Chance(1, 3) {
+		// dimension classes: more batch slots than leaves (legal for deletion: padding slots),
+		// header words with four distinct bytes, depth 0 / batch 0, then random
+		switch i {
+		case 0:
+			ps.TreeDepth, ps.BatchSize = uint32(1+g.Intn(3)), uint32(9+g.Intn(20))
+		case 1:
 			ps.TreeDepth, ps.BatchSize = 0x01020304, 0xfffffffe
+		case 2:
+			ps.TreeDepth, ps.BatchSize = 0, 0
 		}
 		prove := func(s *prover.ProvingSystem) (groth16.Proof, witness.Witness, error) {
 			a := &small{X: make([]frontend.Variable, nx)}
